@@ -1,5 +1,8 @@
-from harness import gens
+from harness import gens, scen
 from harness.props import rowgen
+from harness.scen import call, LOOK_TO, GO, BOB, SINGLE
+
+_WORLD = scen.WorldProp()
 
 
 def call_history(rng, spec, nrows):
@@ -58,6 +61,94 @@ class C04(rowgen.RowGenProp):
                 yield {"k": "gen", "gen": spec, "ops": call_history(rng, spec, nrows)}
             else:
                 yield rowgen.gen_case(rng, spec, nrows, call_p=0.25)
+        for i in range(n // 6):
+            yield self.world_case(rng)
+
+    def world_case(self, rng):
+        """The calls as a conductor makes them: `s_call` messages at arbitrary instants of a touch rung by the
+        real Bot on its real rhythm (Wheatley alone, so every strike is on the line) - half of them in the last
+        blow interval of a row, where the row that follows is about to be generated."""
+        N = rng.choice([4, 5, 6, 6, 8])
+        stage = rng.choice([N, N - 1]) if N > 4 else N
+        spec = gens.rand_pn_spec(rng, stage=stage, calls=True, start_row_p=0.0)
+        spec["start_index"] = rng.choice([0, 0, 1, -1])
+        ps = rng.choice([60, 90])
+        I = scen.interval(ps, N)
+        t0 = 1000.3 + rng.random()
+        udi = True          # (up, down and in: the method starts after two rounds, three when it starts at backstroke)
+        events = [call(t0, LOOK_TO)]
+        nrows = rng.randint(14, 30)
+        t, calls = 0, []
+        for _ in range(rng.randint(1, 4)):
+            r = rng.randint(3, nrows - 4)
+            p = rng.uniform(N - 1.95, N - 1.05) if rng.random() < 0.5 else rng.uniform(0.1, N - 1.1)
+            calls.append(call(t0 + 3 + I * scen.blow_index(N, 1.0, r, p), rng.choice([BOB, SINGLE])))
+        end = t0 + 3 + I * scen.blow_index(N, 1.0, nrows, 0)
+        sc = {"start": 1000.0, "end": end, "tower_size": N, "events": sorted(events + calls, key=lambda e: e[0]),
+              "bot": scen.bot_cfg(spec, up_down_in=udi),
+              "rhythm": scen.rhythm_cfg("regression", inertia=1.0, peal_speed=ps)}
+        return {"k": "world", "scenario": sc, "t0": t0}
+
+    def impl(self, req):
+        if req["k"] == "world":
+            return scen.WorldProp.impl(_WORLD, req)
+        return super().impl(req)
+
+    def to_model(self, req):
+        if req["k"] == "world":
+            return req.pop("_model_req", None)
+        return super().to_model(req)
+
+    def compare(self, req, ir, mr):
+        if req["k"] == "world":
+            return scen.WorldProp.compare(_WORLD, req, ir, mr)
+        return super().compare(req, ir, mr)
+
+    def tag(self, req, reply):
+        if req["k"] == "world":
+            return "bot:timed-calls"
+        return super().tag(req, reply)
+
+    def oracle_world(self, req, reply):
+        sc = req["scenario"]
+        if reply["crashed"] or reply["handler_crashes"]:
+            return f"crash: main={reply['crashed']} handlers={reply['handler_crashes']}"
+        N, spec = sc["tower_size"], sc["bot"]["gen"]
+        stage = spec["stage"]
+        strikes = reply["strikes"]
+        rows = scen.rows_from_strikes(reply, N)
+        opening = list(range(1, N + 1))
+        m = 2 if (spec.get("start_index") or 0) % 2 == 0 else 3
+        if len(rows) <= m or any(r != opening for r in rows[:m]):
+            return None
+        # method row j (= rows[m + j]) is generated when the last bell of the row before it strikes
+        gen_t = [scen.b2f(strikes[(m + j) * N - 1][0]) for j in range(len(rows) - m)]
+        made = sorted((ev[0], ev[2]["call"]) for ev in sc["events"] if ev[2].get("call") in (BOB, SINGLE))
+        if any(abs(tc - g) < 0.006 for tc, _ in made for g in gen_t):
+            return None          # (a call within a few ms of a row boundary: either side is right)
+        ops, k = [], 0
+        made = [(tc, c) for tc, c in made if tc > gen_t[0]]       # (what is called before the start is forgotten by it)
+        for j, g in enumerate(gen_t):
+            while k < len(made) and made[k][0] < g:
+                ops.append("b" if made[k][1] == BOB else "s")
+                k += 1
+            ops.append("H" if (m + j) % 2 == 0 else "B")
+        changes = gens.denote([(p, c) for p, c in spec["_ast"]])
+        ref = lambda d: {int(pos): chs for pos, chs in d.items()}      # noqa: E731 (keys are strings in a replay file)
+        want, ok = gens.ref_call_rows(stage, changes, spec.get("start_index") or 0, opening[:stage],
+                                      ref(spec["_bob_ref"]), ref(spec["_single_ref"]), "".join(ops))
+        if not ok:
+            return None
+        for j, w in enumerate(want):
+            if rows[m + j] != w + opening[stage:]:
+                return (f"calls {[(round(tc - req['t0'], 3), c) for tc, c in made]} (s after Look To): method row {j} is "
+                        f"{rows[m + j]}, the calls made before it was due define {w + opening[stage:]}")
+        return None
+
+    def oracle(self, req, reply):
+        if req["k"] == "world":
+            return self.oracle_world(req, reply)
+        return self.oracle_gen(req, reply)
 
     def _plain(self, req, reply):
         spec = req["gen"]
@@ -66,17 +157,26 @@ class C04(rowgen.RowGenProp):
         return gens.ref_rows(spec["stage"], gens.denote(ast), reply["start_row"], spec.get("start_index") or 0, n)
 
     def nontrivial(self, req, reply):
+        if req["k"] == "world":
+            return len(scen.rings(reply)) > 8
         if "err" in reply or "_ast" not in req["gen"] or "r" in req["ops"]:
             return False
         return rowgen.rows_of(reply) != self._plain(req, reply)
 
-    def oracle(self, req, reply):
+    def oracle_gen(self, req, reply):
         if req["k"] != "gen" or "err" in reply:
             return None
         spec = req["gen"]
         if "_ast" in spec:
             changes = gens.denote([(p, c) for p, c in spec["_ast"]])
             bob_ref, single_ref = spec["_bob_ref"], spec["_single_ref"]
+        elif spec["type"] == "dixon" and spec["stage"] == 6:
+            want, ok = gens.ref_dixon_rows(6, reply["start_row"], req["ops"])
+            rows = rowgen.rows_of(reply)
+            if ok and rows != want:
+                i = next(i for i in range(min(len(rows), len(want))) if rows[i] != want[i])
+                return f"Dixon's Bob Minor: row {i} is {rows[i]}, the rules and the call history define {want[i]}"
+            return None
         else:
             ref = gens.special_reference(spec["type"], spec["stage"])
             if ref is None:
